@@ -487,3 +487,58 @@ impl ToyCurve for A31 {
         F31(v)
     }
 }
+
+// ---------------------------------------------------------------------------------------------
+// Toy base fields for the generic extension-field code of curves/src/ff_ext (hook H8): q = 3 mod 4 so that
+// -1 is a quadratic non-residue (what Algorithm 9 of eprint 2012/685 assumes: i^2 = -1), and q = 1 mod 3 for
+// the cubic extension (a cubic non-residue exists).
+use midnight_curves::ff_ext::verif::{VerifCubicBase, VerifQuadBase};
+use midnight_curves::ff_ext::ExtField;
+
+// 7 - 1 = 2 * 3, generator 3: root = 3^3 = 6, delta = 3^2 = 2, zeta = 2 (2^3 = 1), 2 * 4 = 1
+toy_field!(Q7, u8, 7, gen = 3, s = 1, root = 6, root_inv = 6, delta = 2, two_inv = 4, zeta = 2, modulus = "0x7", bits = 3);
+// 11 - 1 = 2 * 5, generator 2: root = 2^5 = 10, delta = 4, 2 * 6 = 1; no primitive cube root of unity (zeta unused)
+toy_field!(Q11, u8, 11, gen = 2, s = 1, root = 10, root_inv = 10, delta = 4, two_inv = 6, zeta = 1, modulus = "0xb", bits = 4);
+// 19 - 1 = 2 * 9, generator 2: root = 2^9 = 18, delta = 4, zeta = 2^6 = 7 (7^3 = 1), 2 * 10 = 1
+toy_field!(Q19, u16, 19, gen = 2, s = 1, root = 18, root_inv = 18, delta = 4, two_inv = 10, zeta = 7, modulus = "0x13", bits = 5);
+// same field as Q7 but tagged with a CUBIC non-residue (cubes mod 7 are {0, 1, 6})
+toy_field!(C7, u8, 7, gen = 3, s = 1, root = 6, root_inv = 6, delta = 2, two_inv = 4, zeta = 2, modulus = "0x7", bits = 3);
+
+macro_rules! quad_base {
+    ($F:ident, $q:expr) => {
+        impl ExtField for $F {
+            const NON_RESIDUE: Self = $F($q - 1); // -1
+            fn frobenius_map(&mut self, _power: usize) {}
+        }
+        impl VerifQuadBase for $F {
+            const Q_MINUS_3_OVER_4: &'static [u64] = &[($q - 3) / 4];
+            const Q_MINUS_1_OVER_2: &'static [u64] = &[($q - 1) / 2];
+        }
+    };
+}
+quad_base!(Q7, 7);
+quad_base!(Q11, 11);
+quad_base!(Q19, 19);
+impl ExtField for C7 {
+    const NON_RESIDUE: Self = C7(3);
+    fn frobenius_map(&mut self, _power: usize) {}
+}
+impl VerifCubicBase for C7 {}
+
+/// what the tower harnesses need from a toy base field
+pub trait ToyBase: ExtField {
+    const Q: u8;
+    /// `v` must be < Q
+    fn fe(v: u8) -> Self;
+}
+macro_rules! toy_base {
+    ($($F:ident = $q:expr),*) => {$(
+        impl ToyBase for $F {
+            const Q: u8 = $q;
+            fn fe(v: u8) -> Self {
+                $F(v)
+            }
+        }
+    )*};
+}
+toy_base!(Q7 = 7, Q11 = 11, Q19 = 19, C7 = 7);
